@@ -13,7 +13,9 @@ import sys
 from concurrent.futures import ProcessPoolExecutor
 from pathlib import Path
 
-V = Path("/verif")
+import os
+V = Path(os.environ.get("SA_VERIF", "/verif"))
+REPO = Path(os.environ.get("SA_REPO", "/repo"))
 sys.path.insert(0, str(V))
 PROPS = [f"C{i:02d}" for i in range(1, 21)]
 
@@ -23,7 +25,7 @@ def run(args):
     from sa import selftest
     from sa.core import evaluate, AnalysisError
     from sa.ctx import Ctx
-    base = selftest._make_variant(Path("/repo"), Path(patch).read_text(), False)
+    base = selftest._make_variant(REPO, Path(patch).read_text(), False)
     if base is None:
         return label, {"*": "patch does not apply"}
     out = {}
